@@ -649,6 +649,7 @@ func main() {
 		fmt.Fprintln(os.Stderr, "write:", err)
 		os.Exit(1)
 	}
+	layerEntries(args, names, files)
 	fmt.Printf("C13: %d fields, %d status sites (%d assigning), %d status-derived assignments, %d shape notes\n", len(bwFields), len(sites), nAssign, len(dd), len(sh))
 }
 
@@ -719,4 +720,174 @@ func freeIdents(e ast.Expr) []string {
 	}
 	rec(e)
 	return out
+}
+
+// ---------------------------------------------------------------------------------------------
+// layer entries: every function (declaration or function literal) that obtains the response through
+// `beginResponse(…)`, whether the writer (first result) is bound to a name, and whether the same
+// function body defers `<name>.commitPending()` (directly, or inside a deferred function literal).
+// Writes lean/Generated/C13LayerEntries.lean.
+
+const beginFn = "beginResponse"
+const commitFn = "commitPending"
+
+type layerEntry struct {
+	fn            string
+	binds, defers bool
+}
+
+func layerEntries(args ex.Args, names []string, files map[string]*ast.File) {
+	var entries []layerEntry
+	var sh []string
+	foundBegin, foundCommit := false, false
+	// scan one function body without descending into nested function literals (they are scopes of their own)
+	var scope func(name string, body *ast.BlockStmt)
+	scope = func(name string, body *ast.BlockStmt) {
+		if body == nil {
+			return
+		}
+		var writers []string // names bound to the first result of beginResponse
+		calls, boundCalls := 0, 0
+		deferred := map[string]bool{}
+		nlit := 0
+		var walk func(n ast.Node) bool
+		isBegin := func(e ast.Expr) bool {
+			c, ok := e.(*ast.CallExpr)
+			if !ok {
+				return false
+			}
+			id, ok := c.Fun.(*ast.Ident)
+			return ok && id.Name == beginFn
+		}
+		commitRecv := func(c *ast.CallExpr) (string, bool) {
+			sel, ok := c.Fun.(*ast.SelectorExpr)
+			if !ok || sel.Sel.Name != commitFn {
+				return "", false
+			}
+			if id, ok := sel.X.(*ast.Ident); ok {
+				return id.Name, true
+			}
+			return "", false
+		}
+		walk = func(n ast.Node) bool {
+			switch t := n.(type) {
+			case *ast.FuncLit:
+				nlit++
+				scope(fmt.Sprintf("%s#%d", name, nlit), t.Body)
+				return false
+			case *ast.AssignStmt:
+				if len(t.Rhs) == 1 && isBegin(t.Rhs[0]) {
+					calls++
+					boundCalls++
+					if id, ok := t.Lhs[0].(*ast.Ident); ok && id.Name != "_" {
+						writers = append(writers, id.Name)
+					} else {
+						writers = append(writers, "")
+					}
+				}
+			case *ast.ValueSpec:
+				if len(t.Values) == 1 && isBegin(t.Values[0]) {
+					calls++
+					boundCalls++
+					if len(t.Names) > 0 && t.Names[0].Name != "_" {
+						writers = append(writers, t.Names[0].Name)
+					} else {
+						writers = append(writers, "")
+					}
+				}
+			case *ast.CallExpr:
+				if isBegin(t) {
+					calls++ // counted a second time when it is the right-hand side of an assignment; see below
+				}
+			case *ast.DeferStmt:
+				if r, ok := commitRecv(t.Call); ok {
+					deferred[r] = true
+				}
+				if fl, ok := t.Call.Fun.(*ast.FuncLit); ok {
+					// defer func() { …; rw.commitPending(); … }()
+					ast.Inspect(fl.Body, func(m ast.Node) bool {
+						if c, ok := m.(*ast.CallExpr); ok {
+							if r, ok := commitRecv(c); ok {
+								deferred[r] = true
+							}
+						}
+						return true
+					})
+					return false
+				}
+			}
+			return true
+		}
+		ast.Inspect(body, walk)
+		// every bound call was seen twice (as the assignment and as the call expression)
+		if calls-2*boundCalls > 0 {
+			sh = append(sh, fmt.Sprintf("%s: %s(…) used outside `x, y := %s(…)`", name, beginFn, beginFn))
+		}
+		for _, w := range writers {
+			foundBegin = true
+			e := layerEntry{fn: name, binds: w != "", defers: w != "" && deferred[w]}
+			if e.defers {
+				foundCommit = true
+			}
+			entries = append(entries, e)
+		}
+	}
+	for _, n := range names {
+		for _, d := range files[n].Decls {
+			fd, ok := d.(*ast.FuncDecl)
+			if !ok || fd.Body == nil {
+				continue
+			}
+			name := fd.Name.Name
+			if fd.Recv != nil && len(fd.Recv.List) > 0 {
+				name = strings.TrimPrefix(ex.TypeString(fd.Recv.List[0].Type), "*") + "." + name
+			}
+			if fd.Recv == nil && fd.Name.Name == beginFn {
+				continue // the definition itself
+			}
+			scope(name, fd.Body)
+		}
+	}
+	if !foundBegin {
+		sh = append(sh, fmt.Sprintf("no function of %s obtains a response through %s", pkgDir, beginFn))
+	} else if !foundCommit {
+		sh = append(sh, fmt.Sprintf("no function of %s defers %s on the writer it obtained", pkgDir, commitFn))
+	}
+	sort.SliceStable(entries, func(i, j int) bool { return entries[i].fn < entries[j].fn })
+	sort.Strings(sh)
+	b := func(v bool) string {
+		if v {
+			return "true"
+		}
+		return "false"
+	}
+	var sb strings.Builder
+	sb.WriteString("import Model.RespLayer\n")
+	sb.WriteString("/-! C13: every function that obtains the response through `beginResponse` and whether it defers `commitPending` on it (source: std/net/http/*.go). -/\n")
+	sb.WriteString("namespace Generated.C13\nopen Model.RespLayer\n\ndef layerEntries : EntryFacts := {\n  entries := [")
+	for i, e := range entries {
+		if i > 0 {
+			sb.WriteString(",")
+		}
+		fmt.Fprintf(&sb, "\n    { fn := %s, binds := %s, defers := %s }", ex.LeanString(e.fn), b(e.binds), b(e.defers))
+	}
+	sb.WriteString("],\n  shapeChanged := [")
+	for i, s := range sh {
+		if i > 0 {
+			sb.WriteString(", ")
+		}
+		sb.WriteString(ex.LeanString(s))
+	}
+	sb.WriteString("] }\n\nend Generated.C13\n")
+	if err := ex.WriteIfChanged(args.Out, "C13LayerEntries.lean", sb.String()); err != nil {
+		fmt.Fprintln(os.Stderr, "write:", err)
+		os.Exit(1)
+	}
+	nc := 0
+	for _, e := range entries {
+		if e.defers {
+			nc++
+		}
+	}
+	fmt.Printf("C13: %d layer entries (%d defer %s), %d shape notes\n", len(entries), nc, commitFn, len(sh))
 }
